@@ -22,7 +22,7 @@ REPO = os.environ.get('VERIF_REPO', '/repo')
 class FunctionContract:
     def __init__(self, file, qualname, prop, setup=None, requires=(), ensures=(), raises=None, loops=None,
                  modifies=(), result_ty=None, spec_env=None, locals=None, axioms=None, note='', short=None,
-                 inline_loops=None, canary=None, params=None, allow_exc=(), region=None, spec_defs=None, spec_recs=(), ghost_at=None, lemmas=(), modular=True):
+                 inline_loops=None, canary=None, params=None, allow_exc=(), region=None, spec_defs=None, spec_recs=(), ghost_at=None, lemmas=(), modular=True, methods=None, attr_hooks=None, filters=None):
         self.file, self.qualname, self.prop = file, qualname, prop
         self.setup = setup
         self.requires, self.ensures = list(requires), list(ensures)
@@ -43,6 +43,9 @@ class FunctionContract:
         self.spec_recs = list(spec_recs)
         self.ghost_at = ghost_at or {}
         self.lemmas = list(lemmas)
+        self.methods = methods or {}
+        self.attr_hooks = attr_hooks or {}
+        self.filters = filters or {}
         self.modular = modular     # False: callers inline the body instead of using this contract
 
     @property
@@ -269,6 +272,9 @@ def verify(contract, all_contracts=(), timeout_ms=10000, mutate=None, negate_pos
         res.src_sha = hashlib.sha256(seg.encode()).hexdigest()
         res.lines = [node.lineno, node.end_lineno]
         eng.local_types = dict(contract.locals)
+        eng.methods.update(contract.methods)
+        eng.attr_hooks.update(contract.attr_hooks)
+        eng.filters = dict(contract.filters)
         eng.inline_specs = dict(contract.inline_loops)
         body = strip_docstring(node)
         if contract.region:
@@ -303,9 +309,14 @@ def verify(contract, all_contracts=(), timeout_ms=10000, mutate=None, negate_pos
             define_recs(eng, contract.spec_recs, spec_globals)
             env = Env(spec_globals, dict(args))
             eng.spec_fallback = spec_globals
+            eng.param_env = env
             env.vars['__locals__'] = assigned_names(body)
-            old_env = Env(spec_globals, {k: eng.snapshot(v) for k, v in args.items()})
+            old_vals = {k: eng.snapshot(v) for k, v in args.items()}
+            old_vals.update({k: eng.snapshot(v) for k, v in eng.heap.items()})
+            eng.inputs.update(eng.heap)
+            old_env = Env(spec_globals, old_vals)
             env.vars['__old_env__'] = old_env
+            eng.cur_old_env = old_env
             if contract.axioms:
                 for a in contract.axioms(cx, env):
                     eng.assume(a)
@@ -437,9 +448,9 @@ def verify_lemma(lem, timeout_ms=10000):
                     for p, t in lem.params}
             eng.inputs = dict(vals)
             env = lem._env(eng, vals)
-            for r in lem.requires:
-                eng.assume(eng._b(eng.spec_truth(r, env)))
             if lem.induction is None:
+                for r in lem.requires:
+                    eng.assume(eng._b(eng.spec_truth(r, env)))
                 for k, e in enumerate(lem.ensures):
                     eng.oblige(eng._b(eng.spec_truth(e, env)), 'lemma:%d' % k)
                 return
@@ -447,14 +458,17 @@ def verify_lemma(lem, timeout_ms=10000):
             iv = vals[lem.induction]
             if which == 'base':
                 env.vars[lem.induction] = 0
+                for r in lem.requires:
+                    eng.assume(eng._b(eng.spec_truth(r, env)))
                 for k, e in enumerate(lem.ensures):
                     eng.oblige(eng._b(eng.spec_truth(e, env)), 'lemma-base:%d' % k)
             else:
+                # induction hypothesis: requires(i) ==> ensures(i), for an arbitrary i >= 0; goal: the same at i + 1
                 eng.assume(iv.e >= 0)
-                for e in lem.ensures:
-                    eng.assume(eng._b(eng.spec_truth(e, env)))
+                hyp_r = [eng._b(eng.spec_truth(r, env)) for r in lem.requires]
+                hyp_e = [eng._b(eng.spec_truth(e, env)) for e in lem.ensures]
+                eng.assume(z3.Implies(z3.And(*hyp_r) if hyp_r else z3.BoolVal(True), z3.And(*hyp_e)))
                 env.vars[lem.induction] = SV(TInt, iv.e + 1)
-                # the requires may mention the induction variable (e.g. i <= n): they must hold at i+1 too
                 for r in lem.requires:
                     eng.assume(eng._b(eng.spec_truth(r, env)))
                 for k, e in enumerate(lem.ensures):
@@ -533,6 +547,11 @@ class Cx:
     def define(self, name, fn):
         """python-level spec function fn(eng, *values)"""
         self.spec_env[name] = Builtin(fn, name)
+
+    def heap(self, name, box):
+        """register global ghost state (e.g. the node-attribute heap of abstract molecule objects)."""
+        self.eng.heap[name] = box
+        return box
 
     def note_input(self, name, v):
         self.extra_inputs[name] = v
